@@ -13,6 +13,14 @@ def conversations():
     return [
         ('status', dict(allowed={757, 756}, cfg={'version': 757, 'status': status, 'close_after_status': True,
                                                   'script': [('success',), ('close',)]})),
+        # the fallback default is the caller's initial_version even when it is outside allowed_versions
+        ('status-initial-outside', dict(allowed={757, 756}, initial=340,
+                                        cfg={'version': 757, 'status': status, 'close_after_status': True,
+                                             'script': [('success',), ('close',)]})),
+        # the server is gone entirely after cutting the status stream: the fallback connect is refused
+        ('status-server-gone', dict(allowed={757, 756}, refuse_after=1,
+                                    cfg={'version': 757, 'status': status, 'close_after_status': True,
+                                         'script': [('success',), ('close',)]})),
         ('status-then-login', dict(allowed={757, 756}, cfg={'version': 757, 'status': status,
                                                              'close_after_status': True,
                                                              'script': [('success',)] + play[:3] + [('close',)]})),
@@ -26,7 +34,7 @@ def conversations():
     ]
 
 
-def run_one(C, P, allowed, cfg, cut, segment=None):
+def run_one(C, P, allowed, cfg, cut, segment=None, initial=756, refuse_after=None):
     cfg = dict(cfg)
     cfg['script'] = list(cfg['script'])
     cfg['budget'] = {'left': cut}
@@ -34,8 +42,9 @@ def run_one(C, P, allowed, cfg, cut, segment=None):
     if segment:
         cfg['segment'] = segment
     events = []
-    with simnet.Net(lambda s: RefServer(s, cfg), read_budget=20000, idle_limit=2) as net:
-        conn = C.Connection('h', 1, username='u', allowed_versions=set(allowed), initial_version=756 if len(allowed) > 1 else None,
+    with simnet.Net(lambda s: RefServer(s, cfg), read_budget=20000, idle_limit=2,
+                    refuse=(lambda i: i >= refuse_after) if refuse_after is not None else None) as net:
+        conn = C.Connection('h', 1, username='u', allowed_versions=set(allowed), initial_version=initial if len(allowed) > 1 else None,
                             handle_exception=lambda e, i: events.append(('exc', type(e).__name__)),
                             handle_exit=lambda: events.append(('exit',)))
         delivered = []
@@ -55,7 +64,8 @@ def run(ctx):
     from minecraft.networking import packets as P
     for name, sc in conversations():
         # the uncut conversation: what is delivered, and how many bytes the server sends in total
-        probe = run_one(C, P, sc['allowed'], sc['cfg'], 10 ** 9)
+        kw = dict(initial=sc.get('initial', 756), refuse_after=sc.get('refuse_after'))
+        probe = run_one(C, P, sc['allowed'], sc['cfg'], 10 ** 9, **kw)
         nfull = len(probe['delivered'])
         N = 10 ** 9 - probe['budget_left']
         step = 1 if (N <= 160 or ctx.thorough or ctx.searching) else max(1, N // 90)
@@ -63,7 +73,7 @@ def run(ctx):
         ctx.extra.setdefault('e2e_stream_lengths', {})[name] = N
         for k in ks:
             for seg in (None, 1) if (k % 3 == 0 or N <= 160) else (None,):
-                r = run_one(C, P, sc['allowed'], sc['cfg'], k, seg)
+                r = run_one(C, P, sc['allowed'], sc['cfg'], k, seg, **kw)
                 ctx.case(('e2e', name, k, seg), sample={'conversation': name, 'cut': k, 'segment': seg,
                                                         'events': r['events'], 'delivered': len(r['delivered']),
                                                         'reads_after_eof': r['eof_reads']})
@@ -73,8 +83,11 @@ def run(ctx):
                     bad = 'networking thread did not terminate (%s) after %d reads' % (r['stops'], r['reads'])
                 elif r['eof_reads'] > 3 * max(1, r['nconn']):
                     bad = '%d reads after end of stream' % r['eof_reads']
-                elif k < N and not r['events'] and not r['thread_errors'] and r['nconn'] == 1 and 'idle' not in r['stops']:
-                    bad = 'silent exit: no error, no fallback'
+                elif r['nconn'] > 2:
+                    bad = 'the client opened %d connections (one status query and at most one fallback login are documented)' % r['nconn']
+                elif k < N and not r['events'] and not r['thread_errors'] and 'idle' not in r['stops']:
+                    # the server never sends another byte: a fallback login ends in an error as well
+                    bad = 'silent exit: no error reported (connections opened: %d)' % r['nconn']
                 elif 'idle' in r['stops'] and k < N:
                     # idle = the client is waiting although the server has closed: a hang
                     closed_all = all(s.sock.inbox.eof for s in r['servers'])
